@@ -248,7 +248,10 @@ def run_e2e(workdir, name, text):
 def load_entries(path):
     """what the real loader makes of the file (to confirm the writer round-trips)"""
     import polib
-    f = polib.pofile(path)
+    try:
+        f = polib.pofile(path)
+    except UnicodeDecodeError:
+        f = polib.pofile(path, encoding='ISO-8859-1')
     res = []
     for m in f:
         res.append(G.E(m.msgid, m.msgctxt, m.msgid_plural, m.msgstr, dict(m.msgstr_plural), list(m.flags), bool(m.obsolete),
